@@ -1107,6 +1107,9 @@ func (x *Exec) keepThin(kind, label string) bool {
 		if p == "locks" && kind == "lock" {
 			return true
 		}
+		if p == "panic" && kind == "panic" {
+			return true
+		}
 		if strings.HasPrefix(label, p) || strings.Contains(label, ":"+p) {
 			return true
 		}
